@@ -116,6 +116,11 @@ pub fn generate(prop: &PropDef, tier: &str, seed: u64, index: u64) -> RunSpec {
     if prop.id == "C18" && index % 4 == 3 {
         return crate::conc::gen_conc(prop, seed, tier);
     }
+    // C14: memtable data must survive an ingestion that finishes while other threads rotate,
+    // flush and compact; ingested batches become visible atomically to concurrent readers
+    if prop.id == "C14" && index % 4 == 3 {
+        return crate::conc::gen_conc(prop, seed, tier);
+    }
     // C15: clear() must be atomic against a writer, readers and a flush in progress
     if prop.id == "C15" && index % 4 == 3 {
         return crate::conc::gen_conc(prop, seed, tier);
